@@ -5,6 +5,7 @@ package checks
 import (
 	"context"
 	"encoding/json"
+	"errors"
 	"fmt"
 	"net"
 	"os"
@@ -532,6 +533,41 @@ func c15Jobs() []sjob {
 		{"H17-file accounting through the DEFAULT file sink while the clock ticks; the file is a scratch file", func(x *sx) {
 			c15H17(x, e, key, "")
 		}},
+		{"H18 two connections of clients that use a key the server does not have (the server answers each with its bad-secret reply)", func(x *sx) {
+			w := newSWorldR(e.Cfg, nil)
+			w.serve()
+			wrong := []byte("not-the-key-of-this-scope")
+			var r1, r2 [][]byte
+			var wg vsyncrt.WaitGroup
+			wg.Add(2)
+			c1 := w.W.NewConn(1, srvx.Addr4(10, 0, 0, 1, 1001))
+			c2 := w.W.NewConn(2, srvx.Addr4(10, 0, 0, 2, 1002))
+			vsyncrt.Go(func() {
+				sclient(w, c1, [][]byte{authorPkt(wrong, "own", 1, "service=shell", "cmd=show")}, &r1, true)
+				wg.Done()
+			})
+			vsyncrt.Go(func() {
+				sclient(w, c2, [][]byte{authorPkt(wrong, "own", 2, "service=shell", "cmd=show")}, &r2, true)
+				wg.Done()
+			})
+			wg.Wait()
+			// a third one afterwards: what the server sends must still be its bad-secret reply
+			var r3 [][]byte
+			c3 := w.W.NewConn(3, srvx.Addr4(10, 0, 0, 3, 1003))
+			sclient(w, c3, [][]byte{authorPkt(wrong, "own", 3, "service=shell", "cmd=show")}, &r3, true)
+			w.shutdown()
+			for i, r := range [][][]byte{r1, r2, r3} {
+				if len(r) != 1 || r[0] == nil {
+					x.fail("H18/functional", fmt.Sprintf("connection %d: no reply to a packet under a wrong key", i+1))
+					continue
+				}
+				// the reply is obfuscated with the SERVER's key: it must decode to an authorization ERROR
+				if st := replyStatus(key, r[0], 2); st != 0x11 {
+					x.fail("H18/functional", fmt.Sprintf("connection %d: the reply to a packet under a wrong key does not decode (server's key) to an authorization ERROR: status %#x", i+1, st))
+				}
+			}
+			x.obs = transcriptOf(key, r1) + transcriptOf(key, r2) + transcriptOf(key, r3)
+		}},
 		{"H15 two connections of a server whose secret provider hands out ONE key slice (with spare capacity) to every connection", func(x *sx) {
 			shared := append(make([]byte, 0, 64), "shared-secret-15"...)
 			w := newSWorldL(shared, c17Handler{w: nil})
@@ -927,7 +963,7 @@ func c17Body(script []string, pending, patient bool, proxy ...bool) func(x *sx) 
 		w := newSWorldL(c17Key, nil)
 		w.W = world
 		w.L = world.NewListener()
-		w.srv = tq.NewServer(w.lg, srvx.FixedSecret{Key: c17Key, H: c17Handler{w: world, pending: pending}}, tq.SetUseProxy(useProxy))
+		w.srv = tq.NewServer(w.lg, c17Secret{srvx.FixedSecret{Key: c17Key, H: c17Handler{w: world, pending: pending}}}, tq.SetUseProxy(useProxy))
 		w.serve()
 		var conns []*vsyncrt.Conn
 		full := authorPkt(c17Key, "u", 7, "service=shell", "cmd=show")
@@ -967,6 +1003,11 @@ func c17Body(script []string, pending, patient bool, proxy ...bool) func(x *sx) 
 			switch ev[0] {
 			case 'C':
 				c := world.NewConn(len(conns), srvx.Addr4(10, 0, 0, byte(1+len(conns)), 1700))
+				conns = append(conns, c)
+				w.L.Push(c)
+			case 'U':
+				// a connection from a remote the secret store does not know: it is accepted, refused and closed
+				c := world.NewConn(len(conns), srvx.Addr4(172, 16, 0, byte(1+len(conns)), 1700))
 				conns = append(conns, c)
 				w.L.Push(c)
 			case 'F':
@@ -1109,6 +1150,19 @@ func c17Body(script []string, pending, patient bool, proxy ...bool) func(x *sx) 
 	}
 }
 
+// c17Secret knows every remote except 172.16.0.0/12; like a store that has to ask somebody, it gives up when the context ends.
+type c17Secret struct{ srvx.FixedSecret }
+
+func (f c17Secret) Get(ctx context.Context, remote net.Addr) ([]byte, tq.Handler, error) {
+	if a, ok := remote.(*net.TCPAddr); ok && a.IP.To4() != nil && a.IP.To4()[0] == 172 {
+		if err := ctx.Err(); err != nil {
+			return nil, nil, err
+		}
+		return nil, nil, errors.New("unknown remote")
+	}
+	return f.FixedSecret.Get(ctx, remote)
+}
+
 func c17Jobs(quick bool) []sjob {
 	n := 4
 	if quick {
@@ -1156,6 +1210,13 @@ func c17Jobs(quick bool) []sjob {
 		s := s
 		jobs = append(jobs, sjob{"steady arrivals, script (each event digested before the next) " + strings.Join(s, " "), c17Body(s, false, true)})
 		jobs = append(jobs, sjob{"steady arrivals, sessions left pending, script (each event digested before the next) " + strings.Join(s, " "), c17Body(s, true, true)})
+	}
+	// connections from remotes the secret store refuses (U), before, around and after the cancellation: each is closed, and
+	// none is open when Serve has returned
+	for _, s := range [][]string{{"U"}, {"C", "U"}, {"X", "U"}, {"C", "X", "U"}, {"U", "X"}, {"X", "U", "U"}, {"C", "F0", "X", "U"}, {"U", "C", "X", "U", "R"}} {
+		s := s
+		jobs = append(jobs, sjob{"refused remotes, script " + strings.Join(s, " "), c17Body(s, false, false)})
+		jobs = append(jobs, sjob{"refused remotes, script (each event digested before the next) " + strings.Join(s, " "), c17Body(s, false, true)})
 	}
 	// the embedding program closes the listener itself (L) while connections are idle, mid-packet or mid-exchange, before
 	// or after it cancels: Serve still returns only when every connection goroutine has finished
@@ -1593,6 +1654,33 @@ func c13SchedJobs() []sjob {
 			}
 			x.obs = "ok"
 		}})
+		// two configurations delivered back to back (the first may still be in the making when the second arrives): once the
+		// loader has come to rest, every lookup is judged by the LAST configuration delivered
+		jobs = append(jobs, sjob{fmt.Sprintf("a configuration delivered right behind another one (then scopes in order %v): lookups follow the last one delivered", order), func(x *sx) {
+			lg, sink := &srvx.Logger{}, &sinkRec{}
+			ctx, cancel := context.WithCancel(context.Background())
+			defer cancel()
+			feed := cfgFeed{ch: mkCfgChan(1)}
+			ld := newSLoader(ctx, lg, sink, nil, feed)
+			rev := append([]int{}, order...)
+			for i, j := 0, len(rev)-1; i < j; i, j = i+1, j-1 {
+				rev[i], rev[j] = rev[j], rev[i]
+			}
+			feed.ch.Send(mk(rev))
+			feed.ch.Send(mk(order))
+			ld.BlockUntilLoaded()
+			vsyncrt.Quiesce()
+			var scopes []ref.Scope
+			for _, i := range order {
+				sc := c13Scopes[i]
+				scopes = append(scopes, ref.Scope{Name: sc.Name, Key: sc.Key, Prefixes: sc.Prefixes, Effective: sc.Users})
+			}
+			for _, a := range c13SchedAddrs {
+				secret, handler, err := ld.Get(context.Background(), &net.TCPAddr{IP: a, Port: 1313})
+				c13Judge(x, scopes, a, secret, handler, err)
+			}
+			x.obs = "ok"
+		}})
 		// connections are set up concurrently: two lookups in flight at once each get their own address's verdict
 		for _, pair := range [][2]int{{0, 1}, {0, 2}, {3, 4}, {1, 3}} {
 			pair := pair
@@ -1875,8 +1963,12 @@ func schedRun(c *Ctx) {
 		bound = 2
 	}
 	completed := map[int]bool{}
+	only := os.Getenv("VERIF_JOB_FILTER") // debugging aid: explore only the jobs whose name begins with this
 	for ji, job := range jobs {
 		if !c.Mine(ji) {
+			continue
+		}
+		if only != "" && !strings.HasPrefix(job.name, only) {
 			continue
 		}
 		c.R.State(evid.Hash("job", job.name))
@@ -1937,7 +2029,18 @@ func exploreJob(c *Ctx, job sjob, maxDev int) bool {
 			c.R.ViolateMin(kv[0], fmt.Sprintf("%s: schedule %v: %s", job.name, res.Trail, kv[1]), rep, devs)
 		}
 		if c.ID == "C15" {
-			if after := raceLogSize(); after > before {
+			after := raceLogSize()
+			// ThreadSanitizer keeps four accesses per 8-byte word and evicts by trace position: whether the earlier of two
+			// racing accesses is still there when the later one happens can differ between two runs of the SAME schedule
+			// (measured: one recorded schedule, 6 replays, 3 reports). Schedules with a deviation are therefore judged twice
+			// at bounds <= 1; a report in either run counts. This can only add reports of real unordered access pairs.
+			if after == before && devs == maxDev && devs >= 1 && maxDev <= 1 && res.Panic == "" && !res.Deadlock {
+				again := vsyncrt.Run(res.Trail, maxDev, false, func() { job.body(&sx{}) })
+				c.R.Count("race_verdict_reruns", 1)
+				c.R.Trans(int64(again.Steps))
+				after = raceLogSize()
+			}
+			if after > before {
 				keys, reports := raceKeys(raceLogTail(before))
 				for i, k := range keys {
 					c.R.ViolateMin(k, fmt.Sprintf("%s: data race reported under schedule %v (%d deviations):%s", job.name, res.Trail, devs, trunc(reports[i], 1800)), rep, devs)
@@ -1983,10 +2086,20 @@ func schedReplayOne(c *Ctx, raw json.RawMessage) {
 		// The verdict comes from a run WITHOUT the operation log: formatting the log goes through fmt's sync.Pool, whose
 		// race annotations are happens-before edges between the threads of the program - with the log kept, a recorded
 		// race can go unreported. The log is printed from a second run of the same schedule.
-		x := &sx{}
-		before := raceLogSize()
-		res := vsyncrt.Run(rep.Choices, -1, false, func() { job.body(x) })
-		after := raceLogSize()
+		// ThreadSanitizer's bounded shadow (four accesses per word) makes the report of one and the same schedule a matter
+		// of chance in some cases: the schedule is judged up to four times, the first run that reports anything counts.
+		var x *sx
+		var res vsyncrt.Result
+		var before, after int64
+		for try := 0; try < 4; try++ {
+			x = &sx{}
+			before = raceLogSize()
+			res = vsyncrt.Run(rep.Choices, -1, false, func() { job.body(x) })
+			after = raceLogSize()
+			if after > before || len(x.viol) > 0 || res.Deadlock || res.Panic != "" {
+				break
+			}
+		}
 		lg := vsyncrt.Run(rep.Choices, -1, true, func() { job.body(&sx{}) })
 		for _, l := range lg.OpLog {
 			fmt.Println("  ", l)
